@@ -540,6 +540,17 @@ def elf_apply(ef, op):
             return tuple(sdig(s) for s in itertools.islice(ef.iter_sections(), op[1]))
         if k == 'data':
             return hash(ef.get_section(op[1]).data())
+        if k == 'data_twice':          # one Section object asked twice, the stream used in between
+            sec = ef.get_section(op[1])
+            a = hash(sec.data())
+            ef.stream.seek(op[2])
+            b = hash(sec.data())
+            return b if a == b else ('SECOND-READ-DIFFERS',)
+        if k == 'data_after':          # a Section object that is read only after another query
+            sec = ef.get_section(op[1])
+            ef.get_section_by_name(op[2])
+            ef.stream.seek(op[3])
+            return hash(sec.data())
         if k == 'seg':
             s = ef.get_segment(op[1])
             return (type(s).__name__, cdig(s.header))
@@ -603,6 +614,8 @@ def run_hist_elf(idx, rng, sh):
     files = [f for f in sorted(glob.glob(os.path.join(REPO, 'test', 'testfiles_for_*', '*')))
              if os.path.isfile(f) and 300 < os.path.getsize(f) < 300000]
     rng.shuffle(files)
+    if rng.random() < 0.25:     # files with compressed sections first: their content is produced lazily
+        files.sort(key=lambda f: 'compress' not in os.path.basename(f))
     data = None
     for f in files[:20]:
         with open(f, 'rb') as fh:
@@ -622,6 +635,7 @@ def run_hist_elf(idx, rng, sh):
         sh.skip('no usable corpus file')
         return
     names = [s.name for s in secs] + ['.nope']
+    compressed = [i for i, s in enumerate(secs) if s.compressed]
     symnames = []
     for s in secs:
         if isinstance(s, SymbolTableSection):
@@ -635,9 +649,13 @@ def run_hist_elf(idx, rng, sh):
          'attrs': AttributesSection}
 
     def rand_op():
-        k = rng.choice(['nsec', 'sec', 'byname', 'index', 'has', 'iter', 'data', 'seg', 'segdata', 'addr', 'segtags', 'segsyms'] + list(M))
+        k = rng.choice(['nsec', 'sec', 'byname', 'index', 'has', 'iter', 'data', 'data_twice', 'data_after', 'seg', 'segdata', 'addr', 'segtags',
+                        'segsyms'] + list(M))
         if k == 'nsec':
             return (k,)
+        if k in ('data_twice', 'data_after'):
+            i = rng.choice(compressed) if compressed and rng.random() < 0.6 else rng.randrange(len(secs))
+            return (k, i, rng.randrange(len(data))) if k == 'data_twice' else (k, i, rng.choice(names), rng.randrange(len(data)))
         if k in ('sec', 'data'):
             return (k, rng.randrange(len(secs)))
         if k in ('byname', 'index', 'has'):
@@ -681,11 +699,13 @@ def run_hist_elf(idx, rng, sh):
         op = rand_op()
         st.seek(rng.choice([0, len(data), len(data) + 9, rng.randrange(len(data))]))
         got = elf_apply(ef, op)
-        if op not in fresh:
-            fresh[op] = elf_apply(ELFFile(io.BytesIO(data)), op)
-        if got != fresh[op]:
+        # the reference answer of the held-object reads is the plain read of that section on a fresh object
+        ref = ('data', op[1]) if op[0] in ('data_twice', 'data_after') else op
+        if ref not in fresh:
+            fresh[ref] = elf_apply(ELFFile(io.BytesIO(data)), ref)
+        if got != fresh[ref]:
             sh.note_violation('C10:history-dependent answer at the ELF level (%s)' % op[0], file=name, op=op,
-                              history=hist[-12:], got=repr(got)[:300], fresh=repr(fresh[op])[:300])
+                              history=hist[-12:], got=repr(got)[:300], fresh=repr(fresh[ref])[:300])
             break
         m = ef._section_name_map
         if m is not None and m != truth_names:
